@@ -41,19 +41,19 @@ CLAIMED = {
    note="Trusted: the new-reference / stealing API tables in sa/rules/refs.py, clang AST, sa/ dataflow. One accepted idiom (dead error exit of nextGenericKeyIter) is listed in the evidence.",
    technique="ownership/typestate dataflow on clang AST CFGs with inferred interprocedural summaries"),
  "C07": dict(
-   category="model_checking",
+   category="other",
    text="Exhaustive decision-table extraction: for every consistent valuation of the finitely many observations the merge can make (signs of the three key comparisons, value equalities, cursor liveness, first-position flags; mappings and sets) the action of C bucket_merge (22 translation units, both modes) and of the two Python _p_resolveConflict methods is computed from the code by constant propagation and compared pairwise incl. reason code and against a specification table derived from the property statement; refusal prelude (successor link over all three states, empty side, empty result, successor carried) and tree-state unwrapping (multi-leaf -> 11) are checked over enumerated shapes. Exhaustive over the abstract atom space, so it holds for all key/value universes, under the assumption that cursors yield strictly increasing keys.",
    design_ref="DESIGN.md 3.5, 4.4, 5 (C07)",
    note="Trusted: the specification table in sa/rules/merge.py (spec()), the two small interpreters over the C IR / Python ast; an unrecognised construct aborts the run (exit 2) instead of being skipped.",
    technique="finite-domain conditional constant propagation (decision-table extraction) + sibling/spec table comparison"),
  "C10": dict(
-   category="model_checking",
+   category="other",
    text="Exhaustive decision-table extraction for difference/union/intersection over the finite abstract space (None-ness and kind of both operands, cursor liveness, comparison sign): the action of each C entry point through set_operation/copyRemaining (22 translation units) and of each Python function is computed from the code and compared with the table written from Interfaces.py (which key is emitted with which value, which cursors advance, kind of the fresh result, None short-circuits). Structural rules add: operator slots and dunder methods reach the documented function with operands in order, in-place -=/^= guard the aliased operand, set-operation code mutates only objects it created, arbitrary iterables are sorted and de-duplicated. Necessary conditions of the mathematical result on every operand pair; equality on concrete operands additionally needs sorted, duplicate-free cursors (C01).",
    design_ref="DESIGN.md 3.5, 4.4, 5 (C10)",
    note="Trusted: spec() in sa/rules/setops.py, the interpreters over C IR / Python ast (unknown construct = exit 2), classification of operand kinds by initSetIteration/_SetIteration.",
    technique="finite-domain constant propagation (decision tables) + call-graph wiring and freshness checks"),
  "C12": dict(
-   category="model_checking",
+   category="other",
    text="Exhaustive decision-table extraction for weightedUnion/weightedIntersection with symbolic weights and values: the emitted value of every situation is computed as a polynomial over (v1,v2,w1,w2) through the MERGE/MERGE_WEIGHT/MERGE_DEFAULT macro expansions of every numeric value family in C (incl. the operand swap; a narrowing conversion of a weight is made visible) and through the functions _module_builder wires per value datatype in Python, and compared - with result kind, advanced cursors and returned weight - to the table written from Interfaces.py. Decides the documented formula and conventions for all operand kinds and weights as an algebraic identity; overflow and float rounding of concrete arithmetic are not decided.",
    design_ref="DESIGN.md 3.5, 4.4, 5 (C12)",
    note="Trusted: spec() and the polynomial normaliser, the interpreters (unknown construct = exit 2).",
